@@ -48,6 +48,7 @@ class Fixture(object):
         self.obs = []
         self.spins = 0
         self.fired = []
+        self.ncb = 0
         self.res = None
         self.cmds = []
         self.prog = s.spawn("P", self._loop)
@@ -140,9 +141,18 @@ class Fixture(object):
             t = int(label.split("(")[1].rstrip(")"))
             self.do("set_expiry", lambda: (self.res.set_expiry(None if t == NONE_T else t), t)[1])
         elif name == "AddCallback":
-            idx = len([o for o in self.obs if o[0] == "add_callback"]) + 1
-            self.do("add_callback", lambda: (self.res.add_callback(lambda r, i=idx: self.fired.append(i)),
-                                             len(self.fired))[1])
+            # callbacks are numbered as they are registered; a chaining one registers one more on the same result when it runs
+            self.ncb += 1
+            idx = self.ncb
+            if "chain" in label:
+                def cb(r, i=idx):
+                    self.fired.append(i)
+                    self.ncb += 1
+                    self.res.add_callback(lambda r2, j=self.ncb: self.fired.append(j))
+            else:
+                def cb(r, i=idx):
+                    self.fired.append(i)
+            self.do("add_callback", lambda: (self.res.add_callback(cb), len(self.fired))[1])
         elif name == "QExpired":
             self.do("expired", lambda: bool(self.res.expired))
         elif name == "QReady":
